@@ -22,6 +22,10 @@ CLAIMED = {
    "In-process decoder sweep (part a of the design; the end-to-end liveness part is added to this check when the e2e engine lands): every peer-facing decoder incl. the listener- and connector-side handshakes is fed arbitrary bytes and mutated valid messages under generated segmentations, then EOF; exhaustive (total,seq) header sweep and 0-3 byte datagrams; arbitrary datagram sequences; make_fragments for every MTU 0..65535. Oracle: no panic under dev-profile checks (the shipped profiles abort on panic), termination.",
    "Trusted: panic capture via catch_unwind in a harness built with panic=unwind over the same sources; dev-profile overflow checks are at least as strict as the release profile.",
    "proptest mutation fuzzing of valid messages + exhaustive header/MTU enumeration, oracle = no panic / termination", "§3 C05"),
+ "C09": ("vp-inproc", "exploration",
+   "The README operator table is transcribed into data; every operator/spelling alone, every expression tree with 2 operator nodes (exhaustive, 2142 trees) and a seeded sample of 8 000 (quick) / all ~170 000 (thorough) trees with 3 operator nodes, plus 2 500 / 400 000 random deeper trees with literals, arrays, tuples, templates, let/if/?:, are printed (i) with only the parentheses the table makes necessary and (ii) fully parenthesised, and with generated blank/comment filler at every token boundary; each rendering must parse to the tree built directly from the builtin constructors.",
+   "Trusted: my transcription of the table and the 'necessary parentheses' rule (child parenthesised iff lower precedence, or equal precedence on the non-associative side; different precedence-0 constructs in tail position are always parenthesised because the table does not order them); comments after the last token are not generated (not 'between tokens').",
+   "bounded-exhaustive enumeration + proptest random trees, oracle = tree built from constructors per the documented table", "§3 C09"),
 }
 
 NOT_YET = "check not built yet in this session (see DESIGN.md §6 build order); will be claimed once its generator and oracle exist"
